@@ -12,13 +12,30 @@ import itertools
 import numpy as np
 
 
+class _SeedSeq:
+    """The part of a numpy Generator that is NOT its bit-stream position: the SeedSequence object with its count of spawned children.
+    Restoring `bit_generator.state`, or building two generators from one SeedSequence, does not rewind it."""
+
+    def __init__(self):
+        self.n_children_spawned = 0
+
+
 class RngStub:
-    def __init__(self, inp, prefix="", lg=None):
+    def __init__(self, inp, prefix="", lg=None, seed_seq=None):
         self.inp = inp
         self.prefix = prefix
         self.k = 0            # continuous draws so far
         self.calls = []       # log of (kind, args)
         self.bit_generator = self
+        self.seed_seq = seed_seq if seed_seq is not None else _SeedSeq()
+
+    def spawn(self, n_children):
+        """numpy >= 1.25: independent child generators; which children one gets depends on how many were spawned before from the same
+        SeedSequence - not on the position in the bit stream."""
+        first = self.seed_seq.n_children_spawned
+        self.seed_seq.n_children_spawned += int(n_children)
+        self.calls.append(("spawn", int(n_children), first))
+        return [RngStub(self.inp, prefix=f"{self.prefix}child{first + i}_") for i in range(int(n_children))]
 
     # -- helpers
     def _fresh(self, lo, hi):
